@@ -381,3 +381,18 @@ M('C05', 'M2.retry_errors_keep_pending', 'retrier_run', 'retry path: connection 
 M('C14', 'M1.reregister_verify', 'retrier_run', 'the retrier stores a renewed registration (add_update_tower) only on paths on which RegistrationReceipt::verify(&tower_id) returned true', part='reregister_verify')
 PROPS['C05']['bounds'] = PROPS['C05']['bounds'] + '; Retrier::run: one arbitrary iteration over the pending locators, all paths between the reply and the next locator / return'
 PROPS['C05']['outside'] = PROPS['C05']['outside'].replace('the retrier path (Retrier::run), ', '')
+
+# read requests and register (Watcher level)
+for _n, _t in (('ok', 'quick'), ('expired', 'quick'), ('unregistered', 'thorough'), ('bad_signature', 'thorough')):
+    K('C06', 'P2.get_subscription_info.' + _n, 'teos', _w + 'c06_subinfo_' + _n, 'get_subscription_info (%s): authenticates exactly "get subscription info"; refused unless registered and height < expiry (error states the expiry); returns only the caller\'s record and locators; never writes' % _n, _t)
+for _n, _t in (('tracker', 'quick'), ('appointment', 'thorough'), ('other_users_only', 'quick'), ('bad_signature', 'thorough')):
+    K('C06', 'P2.get_appointment.' + _n, 'teos', _w + 'c06_getapp_' + _n, 'get_appointment (%s), message formatting stubbed: own tracker if responded, else own appointment, else NotFound; another user\'s appointment for the same locator is never revealed; never writes' % _n, _t)
+K('C01', 'P6.reported_as_responded', 'teos', _w + 'c06_getapp_tracker', 'a responded appointment is reported (get_appointment) as its tracker with exactly that dispute and penalty', 'thorough')
+K('C08', 'P1.register_signed', 'teos', _w + 'c08_register_signed', 'Watcher::register: the tower signs exactly user_id || slots || start || expiry of the receipt whose values are the persisted ones')
+K('C08', 'P4.readback', 'teos', _w + 'c06_getapp_appointment', 'reading an accepted appointment back returns the caller\'s stored version (blob length / leading bytes / delay on the model)', 'thorough')
+PROPS['C06']['outside'] = PROPS['C06']['outside'].replace('; get_appointment / get_subscription_info handlers (their format!-built messages need real formatting under Kani: not run) are covered only through authenticate_user and has_subscription_expired, which they share', '; the text of the get_appointment message ("get appointment <locator>", built with format!, stubbed under Kani)')
+M('C04', 'P5.block_order', 'responder_block_order', 'Responder::filtered_block_connected (call level): refunding deletion only after check_confirmations, non-refunding deletion only after reorg handling / rebroadcast; exactly these two deletion sites; carrier height and tx index updated first, receipts cleared last')
+K('C01', 'P1.block_connected_breach', 'teos', _w + 'c01_p1_block_connected_breach', 'Watcher::filtered_block_connected for a block with the dispute of a stored appointment (+ an unrelated tx, + an untriggered appointment): cache learns the block, penalty submitted while the block is handled, tracker with exactly that dispute/penalty, height recorded')
+K('C01', 'P1.block_connected_garbled', 'teos', _w + 'c01_p1_block_connected_garbled', 'same with a blob that does not decrypt: nothing sent, only that appointment dropped, no refund', 'thorough')
+PROPS['C04']['assumptions'] = PROPS['C04']['assumptions'] + M_ASSUME[:2]
+PROPS['C01']['outside'] = 'the six-block window is C19; real decryption (ideal-cipher stub); multi-breach blocks beyond one locator with two appointments; SQL; get_breaches with more than 2 transactions per block'
